@@ -2,6 +2,8 @@ import RModel.Base.Lit
 import RModel.Model.Fs
 import RModel.Model.Apply
 import RModel.Lemmas.RenamePhase
+import RModel.Lemmas.ContentPhase
+import RModel.Lemmas.Edits
 /-
   C02ren — nested renames compose   (C02 clause "moving each planned path to its new location …
   files inside renamed directories that are themselves renamed, several nesting levels", and
@@ -505,5 +507,110 @@ example :
     LastOnly rs ∧ DistinctSources rs ∧ TreeWF t ∧ KindsOk t rs ∧ DestFree t rs ∧
     (renamePhase t [] (sortRens rs)).tree = [([b!"a"], .dir 493), ([b!"a", b!"y"], .file b!"A" 420)] := by
   decide
+
+-- 6. the whole of apply as one equation ----------------------------------------------------------------------------
+
+/-- APPLY, EXACTLY (C02 at full strength on the tree model).  For every tree and every plan whose renames change only the
+    last component of distinct existing sources — any number of hunks in any number of files, any nesting of renamed
+    directories — if `applyPlan` reports success then
+
+        (applyPlan t p).tree  =  moveAll p.rens (editAll p.hunks files t)
+
+    i.e. the ORIGINAL tree with (1) every planned file's bytes replaced by `applyEdits` of its original bytes and with its
+    old mode, every other node (directories, symlinks, files without hunks) untouched, and then (2) every key rewritten by
+    `finalPath` (its own rename and those of its ancestors) — as two `List.map`s over the tree, so nothing is added, dropped,
+    merged or reordered.  No hypothesis about destinations (success implies `DestFree`, 9.5b) and none about the files of
+    the plan (`sortedFiles_nodup`). -/
+theorem apply_exact (t : Tree) (p : Plan) (h1 : LastOnly p.rens) (h2 : DistinctSources p.rens)
+    (h3 : TreeWF t) (h4 : KindsOk t p.rens) (hok : (applyPlan t p).outcome = .ok) :
+    (applyPlan t p).tree = moveAll p.rens (ContentPhase.editAll p.hunks (sortedFiles p.hunks) t) := by
+  have hp : preflight t [] p.rens = none := by
+    cases hp : preflight t [] p.rens with
+    | none => rfl
+    | some o =>
+      rw [RenamePhase.applyPlan_preflight_refusal t p hp] at hok
+      rcases RenamePhase.preflight_some _ _ hp with rfl | rfl <;> cases hok
+  have h5 := (destFree_iff_preflight_loop t p.rens h1 h3 h4).2 hp
+  cases hcp : contentPhase p.hunks t (sortedFiles p.hunks) with
+  | mk o t1 =>
+    have ho : o = .ok := by
+      cases o with
+      | ok => rfl
+      | _ =>
+        rw [RenamePhase.applyPlan_pass hp] at hok
+        unfold applyCore at hok
+        rw [hcp] at hok
+        cases hok
+    subst ho
+    have hc : (contentPhase p.hunks t (sortedFiles p.hunks)).1 = .ok := by rw [hcp]
+    have hmv := applyPlan_moves t p h1 h2 h3 h4 h5 hc
+    rw [hcp] at hmv
+    have htree : (applyPlan t p).tree = moveAll p.rens t1 := by
+      rcases hmv with h | h | ⟨e, h⟩
+      · exact h.2
+      · rw [hok] at h; cases h
+      · rw [hok] at h; cases h
+    rw [htree, ContentPhase.contentPhase_plan_exact p.hunks t t1 h3.1 hcp]
+
+/-- … and the bytes are the ones the plan describes: for a planned file whose hunks are consistent with its bytes
+    (ascending, disjoint, in range, on character boundaries, recorded text = text at the span — what `C03.findMatches_Consistent`
+    proves of every plan the planner emits), the content after apply is the left-to-right splice `Edits.spec`. -/
+theorem apply_exact_content (t : Tree) (p : Plan) (h1 : LastOnly p.rens) (h2 : DistinctSources p.rens)
+    (h3 : TreeWF t) (h4 : KindsOk t p.rens) (hok : (applyPlan t p).outcome = .ok)
+    (f : Path) (c : Bytes) (m : Nat) (hf : f ∈ sortedFiles p.hunks) (hl : lookup t f = some (.file c m))
+    (hcons : Edits.Consistent c 0 (editsFor p.hunks f)) :
+    lookup (applyPlan t p).tree (finalPath p.rens f) = some (.file (Edits.spec c 0 (editsFor p.hunks f)) m) := by
+  have hp : preflight t [] p.rens = none := by
+    cases hp : preflight t [] p.rens with
+    | none => rfl
+    | some o =>
+      rw [RenamePhase.applyPlan_preflight_refusal t p hp] at hok
+      rcases RenamePhase.preflight_some _ _ hp with rfl | rfl <;> cases hok
+  have h5 := (destFree_iff_preflight_loop t p.rens h1 h3 h4).2 hp
+  rw [apply_exact t p h1 h2 h3 h4 hok]
+  -- the edited tree has the same shape, so the lookup theorem of the rename phase applies to it
+  have hkeys : (ContentPhase.editAll p.hunks (sortedFiles p.hunks) t).map (·.1) = t.map (·.1) := by
+    simp [ContentPhase.editAll, List.map_map, Function.comp_def]
+  have hlk : lookup (ContentPhase.editAll p.hunks (sortedFiles p.hunks) t) f =
+      some (.file (Edits.spec c 0 (editsFor p.hunks f)) m) := by
+    unfold ContentPhase.editAll
+    rw [RenamePhase.lookup_map_node (fun k n => ContentPhase.editNode p.hunks (sortedFiles p.hunks) k n), hl]
+    simp only [Option.map_some, ContentPhase.editNode, hf, ↓reduceIte, Edits.applyEdits_eq_spec c _ hcons]
+  obtain ⟨e, he, hek⟩ := RenamePhase.mem_of_lookup_some hlk
+  have hshape : RenamePhase.SameShape t (ContentPhase.editAll p.hunks (sortedFiles p.hunks) t) := by
+    refine ⟨hkeys, fun q => ?_⟩
+    unfold ContentPhase.editAll
+    rw [RenamePhase.lookup_map_node (fun k n => ContentPhase.editNode p.hunks (sortedFiles p.hunks) k n)]
+    cases lookup t q with
+    | none => exact ⟨rfl, rfl⟩
+    | some n =>
+      refine ⟨?_, rfl⟩
+      simp only [Option.map_some, ContentPhase.editNode]
+      split
+      · cases n with
+        | file c0 m0 => simp only []; split <;> rfl
+        | dir _ => rfl
+        | link _ => rfl
+      · rfl
+  have h3' : TreeWF (ContentPhase.editAll p.hunks (sortedFiles p.hunks) t) := by
+    have := (h3.toLemma).sameShape hshape
+    simpa only [TreeWF, RenamePhase.GTreeWF, isDirNode_eq] using this
+  have h5' : DestFree (ContentPhase.editAll p.hunks (sortedFiles p.hunks) t) p.rens :=
+    (RenamePhase.GDestFree.sameShape h5 hshape)
+  have := lookup_after _ p.rens h1 h3' h5' e he
+  rw [hek] at this
+  rw [this]
+  exact hlk
+
+/-- non-vacuity of `apply_exact` / `apply_exact_content`: an edited file inside a renamed directory, a renamed file -/
+example :
+    let t : Tree := [([b!"foo_bar"], .dir 493), ([b!"foo_bar", b!"a.txt"], .file b!"x foo_bar y\n" 420),
+                     ([b!"foo_bar.txt"], .file b!"z" 384)]
+    let p : Plan := { hunks := [⟨[b!"foo_bar", b!"a.txt"], b!"foo_bar", b!"baz_qux", 2, 9⟩],
+                      rens := [⟨[b!"foo_bar"], [b!"baz_qux"], .dir⟩, ⟨[b!"foo_bar.txt"], [b!"baz_qux.txt"], .file⟩] }
+    LastOnly p.rens ∧ DistinctSources p.rens ∧ TreeWF t ∧ KindsOk t p.rens ∧ (applyPlan t p).outcome = .ok ∧
+    Edits.Consistent b!"x foo_bar y\n" 0 (editsFor p.hunks [b!"foo_bar", b!"a.txt"]) ∧
+    (applyPlan t p).tree = [([b!"baz_qux"], .dir 493), ([b!"baz_qux", b!"a.txt"], .file b!"x baz_qux y\n" 420),
+                            ([b!"baz_qux.txt"], .file b!"z" 384)] := by decide +kernel
 
 end C02ren
